@@ -30,6 +30,27 @@ CHECKS = {
  "C19": ("model-based scenario testing of the CLI: exit status / stdout / stderr compared with a model computed from library calls over generated file-state scenarios",
          "5/C19", "Exploration: scenarios over schema state x ordered instance states x output mode x error format x --validator x --base-uri, run in-process (and 1/40 as a subprocess), compared unit by unit with the library's own errors.",
          "Diagnostic wording and the particular non-zero status are not asserted."),
+ "C02": ("metamorphic testing (errors with $ref == errors of the reference-free expansion built by an independent RFC 3986/6901 resolver) plus differential verdict vs O-SPEC over generated reference worlds",
+         "5/C02", "Exploration: multi-document reference worlds (hostile definition names, every reference spelling, chains, recursion, nested ids, store / handler / missing documents, ignored siblings) x instances; error locations compared with the inlined schema, verdict with an independent evaluator and resolver.",
+         "Targets reachable only through embedded ids are excluded as the property says; two open known findings (exotic URI schemes, id next to $ref) are recognised counterfactually."),
+ "C04": ("differential testing between the four entry points (is_valid / iter_errors / validate / jsonschema.validate) incl. SchemaError field equality, an untouchable instance and repetition",
+         "5/C04", "Exploration: valid and invalid schemas x instances x class selection x format checker; the relations the statement lists are checked on every case.",
+         "best_match's choice is only required to be a context-free descendant equal to the harness's own best_match call."),
+ "C05": ("metamorphic testing (errors(S) == union of per-keyword restrictions) plus per-keyword violation sets against O-SPEC",
+         "5/C05", "Exploration: schema objects with interacting keywords x drawn and schema-derived instances; independence of keywords and one-error-per-violation checked at the root (nested levels are produced by the same routine).",
+         "O-SPEC self-tested on the official suite; multipleOf pairs outside the exact sub-domain are not judged."),
+ "C06": ("validity-predicate testing of every error in the transitive context closure (instance path, schema path with reference hops, parent composition, json_path)",
+         "5/C06", "Exploration: C01 cases and reference worlds; navigation invariants on every error incl. errors behind references, resolved with an independent resolver.",
+         "Carve-outs exactly as the property lists (Draft 3 required, propertyNames, false schema)."),
+ "C10": ("metamorphic testing: insertion of foreign keywords (other drafts' vocabularies taken from the specifications, annotations, later-spec names, unknown names, the other id keyword; any keyword next to $ref) leaves errors unchanged",
+         "5/C10", "Exploration: C01 cases and reference worlds x insertion positions x names x 'hot' and arbitrary values; error multisets and exceptions before/after must be equal.",
+         "Vocabularies come from O-SPEC's tables, never from the code under test; names a draft's keywords consult are not foreign."),
+ "C11": ("differential testing of check_schema against O-SPEC evaluating pinned reference copies of the bundled metaschemas, plus exhaustive keyword x value-pool enumeration",
+         "5/C11", "Exploration plus an exhaustive small scope (every keyword x 60 values x 4 wrappers x 4 drafts): acceptance must equal the independent evaluation of the metaschema, only SchemaError may be raised, each metaschema accepted by its class, accepted candidates go to the totality oracle.",
+         "Reference metaschemas are pinned copies of the bundled files; format inside metaschemas is not enforced."),
+ "C12": ("reference-model testing of the format keyword against a model of (checker table, scripted custom functions), plus metamorphic removal of format without a checker",
+         "5/C12", "Exploration: format names x instances of every JSON type x checker configurations incl. scripted functions returning truthy/falsy objects or raising listed/unlisted exceptions; flat, nested (vs O-SPEC) and non-string modes.",
+         "For built-in functions conformance is the checker's own conforms(); C13 decides the grammars."),
 }
 
 NOT_YET = "check not built yet in this revision of /verif (planned in DESIGN.md section 5)"
